@@ -23,16 +23,23 @@ import (
 const (
 	libSession = 0x0101
 
-	cT3 = 3 * time.Second
-	cT5 = 4 * time.Second
-	cT6 = 2 * time.Second
-	cT7 = 5 * time.Second
-	cT8 = 1 * time.Second
-	cWT = 1500 * time.Millisecond // write timeout
-	cLT = 7 * time.Second         // auto-linktest interval (fail threshold 1)
+	cT5 = 4 * time.Second // the backoff ceiling (fixed; the backoff configurations vary initial and multiplier)
 
 	stepGap = 10 * time.Millisecond // virtual time between two script steps
 )
+
+// timerSet is one configuration of the protocol timers that cover stalls. Within a set all
+// values are distinct and no two candidate expiries of one execution coincide.
+type timerSet struct {
+	T3, T6, T7, T8 time.Duration
+	WT             time.Duration // write timeout
+	LT             time.Duration // auto-linktest interval (fail threshold 1)
+}
+
+var timerSets = []timerSet{
+	{T3: 3 * time.Second, T6: 2 * time.Second, T7: 5 * time.Second, T8: 1 * time.Second, WT: 1500 * time.Millisecond, LT: 7 * time.Second},
+	{T3: 2500 * time.Millisecond, T6: 3 * time.Second, T7: 6 * time.Second, T8: 2 * time.Second, WT: 700 * time.Millisecond, LT: 9 * time.Second},
+}
 
 // bcfg is one reconnect-backoff configuration (T5 stays 4 s).
 type bcfg struct {
@@ -60,7 +67,7 @@ type exec struct {
 	w  *e2.World
 	cs caseSpec
 	bc bcfg
-	t6 time.Duration
+	ts timerSet
 
 	mu         sync.Mutex
 	attempts   []attempt
@@ -70,7 +77,11 @@ type exec struct {
 	listenedCh chan struct{}
 	closedCh   chan int // generation index of a library socket on its first Close
 
-	// outbound byte gate (first generation only)
+	curGen   int    // generation of the link the script is running on
+	faultGen int    // generation whose streams carry the case's fault (fault: 0, fault2: 1)
+	pfx      string // phase prefix ("gen2-" on the second link)
+
+	// outbound byte gate (generation faultGen only)
 	gateAt    int // fault after this many outbound bytes; -1 = no outbound fault
 	gateCount int
 	gateFired bool
@@ -85,26 +96,29 @@ type exec struct {
 	inEnds   []int
 
 	// reference-side knowledge of the session
-	inCount    int
-	partialIn  bool
-	selected   bool
-	tUp        time.Duration
-	tSelReq    time.Duration
-	tLastFrame time.Duration
-	phase      string
-	faulted    bool
-	tF         time.Duration
+	inCount         int
+	partialIn       bool
+	selected        bool
+	tUp             time.Duration
+	tSelReq         time.Duration
+	tLastFrame      time.Duration
+	phase           string
+	faulted         bool
+	tF              time.Duration
 	listenersBefore int
-	immediate  bool // the injected fault is one the library must notice at once (close, reset, rejection)
+	immediate       bool // the injected fault is one the library must notice at once (close, reset, rejection)
 }
 
 func newExec(w *e2.World, cs caseSpec) *exec {
-	x := &exec{w: w, cs: cs, bc: bcfgs[cs.Cfg], t6: cT6, gateAt: -1, peerSys: 0x50000000,
+	x := &exec{w: w, cs: cs, bc: bcfgs[cs.Cfg], ts: timerSets[cs.TS], gateAt: -1, peerSys: 0x50000000,
 		acceptedCh: make(chan struct{}, 64), listenedCh: make(chan struct{}, 64), closedCh: make(chan int, 64)}
 	if cs.Kind == "active-t7" {
-		x.t6 = 6 * time.Second // T6 > T7: the NOT-SELECTED dwell is what covers a silent peer
+		x.ts.T6 = x.ts.T7 + time.Second // T6 > T7: the NOT-SELECTED dwell is what covers a silent peer
 	}
-	if cs.Kind == "fault" && cs.Dir == "out" {
+	if cs.Kind == "fault2" {
+		x.faultGen = 1
+	}
+	if (cs.Kind == "fault" || cs.Kind == "fault2") && cs.Dir == "out" {
 		x.gateAt = cs.Offset
 	}
 	w.Net.Plan = func(int) sim.DialAnswer {
@@ -121,9 +135,9 @@ func newExec(w *e2.World, cs caseSpec) *exec {
 	}
 	o := e2.Opts{Active: cs.Active, NoHandle: true, Conn: []hsms.ConnOption{
 		hsms.WithSessionID(libSession),
-		hsms.WithT3(cT3), hsms.WithT5(cT5), hsms.WithT6(x.t6), hsms.WithT7(cT7), hsms.WithT8(cT8),
-		hsms.WithWriteTimeout(cWT), hsms.WithReconnectBackoff(x.bc.Initial, x.bc.Mult),
-		hsms.WithLinktestInterval(cLT), hsms.WithLinktestFailThreshold(1),
+		hsms.WithT3(x.ts.T3), hsms.WithT5(cT5), hsms.WithT6(x.ts.T6), hsms.WithT7(x.ts.T7), hsms.WithT8(x.ts.T8),
+		hsms.WithWriteTimeout(x.ts.WT), hsms.WithReconnectBackoff(x.bc.Initial, x.bc.Mult),
+		hsms.WithLinktestInterval(x.ts.LT), hsms.WithLinktestFailThreshold(1),
 	}, Extra: []hsmsss.Option{hsmsss.WithDialer(x.dial), hsmsss.WithListener(x.listen)}}
 	w.NewConn(o)
 	w.C.AddDataMessageHandler(func(m *hsms.DataMessage, ep hsms.SECS2Endpoint) {
@@ -229,7 +243,7 @@ type gconn struct {
 
 func (c *gconn) Write(b []byte) (int, error) {
 	x := c.x
-	if c.gen != 0 || x.gateAt < 0 {
+	if c.gen != x.faultGen || x.gateAt < 0 {
 		return c.Conn.Write(b)
 	}
 	total := 0
@@ -290,6 +304,8 @@ func (x *exec) injectFault() {
 		x.immediate = true
 	case "stall":
 		x.p.Stall() // stops reading; the script stops sending
+	case "mute":
+		// keeps reading (the library's writes succeed) but never sends another byte
 	}
 }
 
@@ -311,7 +327,7 @@ func (x *exec) read() []peer.Frame {
 func (x *exec) in(f peer.Frame) bool {
 	b := f.Bytes()
 	x.inStream = append(x.inStream, b...)
-	if x.cs.Kind == "fault" && x.cs.Dir == "in" && !x.faulted && x.cs.Offset <= x.inCount+len(b) {
+	if x.inArmed() && x.cs.Offset <= x.inCount+len(b) {
 		n := x.cs.Offset - x.inCount
 		if n > 0 {
 			_, _ = x.p.Write(b[:n])
@@ -333,6 +349,11 @@ func (x *exec) in(f peer.Frame) bool {
 	x.frameDone()
 	x.inEnds = append(x.inEnds, x.inCount)
 	return !x.gateFiredNow()
+}
+
+// inArmed: the case's fault sits in the inbound stream of the link the script is on.
+func (x *exec) inArmed() bool {
+	return (x.cs.Kind == "fault" || x.cs.Kind == "fault2") && x.cs.Dir == "in" && x.curGen == x.faultGen && !x.faulted
 }
 
 func (x *exec) frameDone() { x.tLastFrame = x.w.Now() }
